@@ -165,6 +165,13 @@ def frame_corpus():
     c = frame(rng, b'a=1&b=2', 16, None, True, [])
     c['data'] = list(b'7\r\na=1&b=2\r\n0')                                       # truncated last-chunk line
     out.append(c)
+    # header combinations: no Content-Length at all / empty; both framing headers; content types
+    out.append(dict(frame(rng, b'a=1&b=2', 16, None, False, []), cl=-1))
+    out.append(dict(frame(rng, b'a=1&b=2', 16, None, False, []), cl=-1, cl_empty=True))
+    for cl in (0, 3, 7, 20):
+        out.append(dict(frame(rng, b'a=1&b=2', 16, None, True, [0, 2]), cl=cl))     # chunked + Content-Length (F35)
+    for ct in CT_URLENC:
+        out.append(dict(frame(rng, b'a=1&a=%2B', 16, None, False, [1]), ctype=ct))
     return out
 
 
@@ -194,7 +201,7 @@ CT_URLENC = [None, '', 'application/x-www-form-urlencoded', 'APPLICATION/X-WWW-F
              'x-multipart/form-data', 'application/x-json', 'application/jso', 'multipart', 'application/octet-stream',
              '\xe9/\xc9']
 CT_OTHER = ['multipart/form-data', 'Multipart/Mixed', 'MULTIPART/', 'application/json', 'Application/JSON; charset=utf-8',
-            'application/json-patch+json']
+            'APPLICATION/JSON ;x=1']
 DICT_ATTRS = set(dir(dict)) | {'copy'}
 
 
@@ -302,6 +309,21 @@ def corpus():
     out.append(prim('urlencode', [[S('a b'), S('c&d')], [S('é'), S('')], [S(''), S('=')]]))
     out.append(prim('urlencode_q', [[S('a b'), S('c&d')], [S('é'), S('+')]]))
     out.append(prim('urlencode', []))
+    P = lambda ps: [[S(k), S(v)] for k, v in ps]
+    out += [
+        dict(kind='modes', mode='append', d0=P([('pre', 'x')]), pairs=P([('a', '1'), ('a', '2'), ('b', '')]), spelling='plus'),
+        dict(kind='modes', mode='setitem', d0=P([('a', 'old'), ('z', 'keep')]), pairs=P([('a', '1'), ('b', '2'), ('a', '3')]),
+             spelling='quote'),
+        dict(kind='modes', mode='both', d0=P([('b', 'old')]), pairs=P([('a', '1'), ('b', '2')]), spelling='plus'),
+        dict(kind='modes', mode='setitem', d0=[], qs=S('=v&a&a=%e9&&b==')),
+        dict(kind='modes', mode='append', d0=[], qs=S('=v&a&a=%e9&&b==')),
+        dict(kind='reuse', reqs=[[S('a=1&a=2'), S('x=1')], [S(''), S('')], [S('b=2'), S('x=2&y=%e9')], [S('a=1&a=2'), S('x=1')]]),
+        dict(kind='cachein', form='attr', ro=False, fails=False, base=10,
+             ops=[['get'], ['get'], ['del'], ['del'], ['get'], ['set', 7], ['get']]),
+        dict(kind='cachein', form='key', ro=True, fails=False, base=3, ops=[['get'], ['set', 7], ['del'], ['get']]),
+        dict(kind='cachein', form='key_kw', ro=False, fails=True, base=0, ops=[['get'], ['get'], ['set', 1], ['get'], ['del']]),
+        dict(kind='cachein', form='attr', ro=True, fails=True, base=0, ops=[['get'], ['del'], ['set', 2], ['get']]),
+    ]
     return out + frame_corpus()[8:]
 
 
@@ -419,10 +441,44 @@ def gen_seq_ops(rng):
     return dict(kind='seq', qs=rand_raw(rng), body=[x for x in rand_raw(rng) if x < 256], ops=ops, ct=ct, ro=ro)
 
 
+def gen_misc(rng):
+    k = rng.random()
+    if k < 0.4:
+        pool = [rand_text(rng, 1, 3) for _ in range(rng.randrange(1, 3))]
+        d0 = [[list(rng.choice(pool + [S('z')])), rand_text(rng, 0, 3)] for _ in range(rng.randrange(0, 3))]
+        c = dict(kind='modes', mode=rng.choice(['append', 'setitem', 'both']), d0=d0)
+        if rng.random() < 0.7:
+            c.update(pairs=[[list(rng.choice(pool)), rand_text(rng, 0, 3)] for _ in range(rng.randrange(0, 5))],
+                     spelling=rng.choice(['plus', 'quote']))
+        else:
+            c['qs'] = rand_raw(rng)
+        return c
+    if k < 0.7:
+        def one():
+            if rng.random() < 0.7:
+                sp = rng.choice(['plus', 'quote'])
+                pool = [rand_text(rng, 1, 2) for _ in range(2)]
+                mk = lambda: [[list(rng.choice(pool)), rand_text(rng, 0, 3)] for _ in range(rng.randrange(0, 4))]
+                return [S(pairs_text(mk(), sp).decode('ascii')), list(pairs_text(mk(), sp))]
+            return [[x for x in rand_raw(rng) if not 0xD800 <= x < 0xE000], [x for x in rand_raw(rng) if x < 256]]
+        reqs = [one() for _ in range(rng.randrange(2, 5))]
+        if rng.random() < 0.5:
+            reqs.append(list(reqs[0]))
+        return dict(kind='reuse', reqs=reqs)
+    ops = []
+    for _ in range(rng.randrange(2, 9)):
+        r = rng.random()
+        ops.append(['get'] if r < 0.55 else ['set', rng.randrange(-3, 50)] if r < 0.8 else ['del'])
+    return dict(kind='cachein', form=rng.choice(['attr', 'key', 'key_kw']), ro=rng.random() < 0.4,
+                fails=rng.random() < 0.25, base=rng.randrange(0, 100), ops=ops)
+
+
 def gen(rng, n):
     for _ in range(n):
         r = rng.random()
-        if r < 0.1:
+        if r < 0.03:
+            yield gen_misc(rng)
+        elif r < 0.1:
             if rng.random() < 0.75:
                 pool = [rand_text(rng, 1, 3) for _ in range(rng.randrange(1, 3))]
                 pairs = [[list(rng.choice(pool)), rand_text(rng, 0, 3)] for _ in range(rng.randrange(0, 4))]
@@ -441,8 +497,17 @@ def gen(rng, n):
             cl = None
             if not chunked and rng.random() < 0.1:
                 cl = max(0, n + rng.choice([-2, -1, 1, 3]))
-            yield frame(rng, text, buf, maxb, chunked, sched, pairs, spelling, cl=cl,
-                        tail=rng.choice([b'', b'', b'&z=9', b'\r\n']))
+            c = frame(rng, text, buf, maxb, chunked, sched, pairs, spelling, cl=cl,
+                      tail=rng.choice([b'', b'', b'&z=9', b'\r\n']))
+            k = rng.random()
+            if k < 0.08:
+                c['cl'] = -1                                   # no Content-Length header
+                c['cl_empty'] = rng.random() < 0.5             # ... or an empty one
+            elif k < 0.16 and chunked:
+                c['cl'] = rng.choice([0, 1, max(n - 1, 0), n, n + 1, 10 * n + 5])   # both framing headers
+            if rng.random() < 0.3:
+                c['ctype'] = rng.choice(CT_URLENC)
+            yield c
         elif r < 0.2:
             order = list(rng.choice(ORDERS)) if rng.random() < 0.5 else \
                 [rng.choice(['query', 'forms', 'params']) for _ in range(rng.randrange(2, 6))]
@@ -660,7 +725,7 @@ def run_seq_ops(case):
                 raw.append([list(got), list(body if o[1] < 0 else body[:o[1]])])
             elif k in ('read', 'copy', 'attr'):
                 d, obj = view_dump(rq, o[1])
-                state = (qs, body, ct)
+                state = (body, ct)
                 if d == 'other':
                     refused.add(state)
                 elif state in refused and o[1] != 'query' and not py_selects_urlencoded(ct):
@@ -742,11 +807,15 @@ def run_frame(case):
     app.route('/b', method='POST', callback=handler)
     st = FragStream(case['data'], case['sched'])
     env = environ('POST', '/b', **{'wsgi.input': st})
-    env['CONTENT_TYPE'] = 'application/x-www-form-urlencoded'
+    ct = case.get('ctype', 'application/x-www-form-urlencoded')
+    if ct is not None:
+        env['CONTENT_TYPE'] = ct
     if case['chunked']:
         env['HTTP_TRANSFER_ENCODING'] = 'chunked'
     if case['cl'] >= 0:
         env['CONTENT_LENGTH'] = str(case['cl'])
+    elif case.get('cl_empty'):
+        env['CONTENT_LENGTH'] = ''
     out = {}
 
     def start_response(status, headers, exc_info=None):
@@ -766,6 +835,8 @@ def run_frame(case):
 def project(obs, case):
     if case['kind'] == 'seq' and 'fresh' in obs:
         return dict(status=obs['status'], reads=obs['reads'])
+    if case['kind'] == 'cachein' and 'calls' in obs:
+        return dict(status=obs['status'], out=obs['out'])
     return obs
 
 
@@ -855,9 +926,107 @@ def run_impl(case):
     return run_impl_inner(case)
 
 
+def modes_qs(case):
+    if 'pairs' in case:
+        return pairs_text(case['pairs'], case['spelling']).decode('ascii')
+    return T(case['qs'])
+
+
+def run_modes(case):
+    from ombott.request_pkg.helpers import parse_qsl, FormsDict
+    qs = modes_qs(case)
+    d0 = [(T(k), T(v)) for k, v in case['d0']]
+    try:
+        if case['mode'] == 'append':
+            acc = list(d0)
+            ret = parse_qsl(qs, append=acc.append)
+            out = dict(status='ok', pairs=[[S(k), S(v)] for k, v in acc])
+        else:
+            d = FormsDict(d0)
+            acc = []
+            kw = dict(append=acc.append) if case['mode'] == 'both' else {}
+            ret = parse_qsl(qs, setitem=d.__setitem__, **kw)
+            out = dict(status='ok', items=dump_dict(d))
+            if acc:
+                out['status'] = 'append called although setitem was given'
+        if ret is not None:
+            out['status'] = 'returned %s' % type(ret).__name__
+        return out
+    except Exception as e:
+        return dict(status='raised', exc=type(e).__name__)
+
+
+def run_reuse(case):
+    from ombott import Ombott
+    app = Ombott()
+    seen = []
+
+    def handler():
+        rq = app.request
+        seen.append([dump_dict(rq.query), dump_dict(rq.forms), dump_dict(rq.params)])
+        return 'ok'
+    app.route('/b', method='POST', callback=handler)
+    codes = []
+    for q, b in case['reqs']:
+        env = environ('POST', '/b', QUERY_STRING=T(q))
+        env['wsgi.input'] = io.BytesIO(bytes(b))
+        env['CONTENT_LENGTH'] = str(len(b))
+        env['CONTENT_TYPE'] = 'application/x-www-form-urlencoded'
+        out = {}
+        b''.join(app(env, lambda status, headers, exc_info=None: out.update(status=status)))
+        codes.append(int(out['status'].split()[0]))
+    if codes != [200] * len(codes):
+        return dict(status='codes %s' % codes)
+    return dict(status='ok', responses=seen)
+
+
+def run_cachein(case):
+    from ombott.request_pkg.helpers import cache_in
+    from ombott.errors import PropertyGetterError
+    calls = [0]
+
+    def getter(self):
+        calls[0] += 1
+        if case['fails']:
+            raise AttributeError('getter failed')
+        return case['base'] + calls[0] - 1
+    spec = {'attr': ('_slot', None), 'key': ('store[ k ]', None), 'key_kw': ('store', 'k')}[case['form']]
+    prop = cache_in(spec[0], key=spec[1], read_only=case['ro'])(getter)
+
+    class Toy:
+        def __init__(self):
+            self.store = {}
+    Toy.p = prop
+    obj = Toy()
+    out = []
+    for o in case['ops']:
+        try:
+            if o[0] == 'get':
+                out.append([0, obj.p])
+            elif o[0] == 'set':
+                obj.p = o[1]
+                out.append([1])
+            else:
+                del obj.p
+                out.append([1])
+        except PropertyGetterError:
+            out.append([4])
+        except AttributeError as e:
+            out.append([2] if 'Read-Only' in str(e) else [3])
+        except KeyError:
+            out.append([3])
+    return dict(status='ok', out=out, calls=calls[0])
+
+
 def run_impl_inner(case):
     if case['kind'] == 'prim':
         return run_prim(case['op'], case['arg'])
+    if case['kind'] == 'modes':
+        return run_modes(case)
+    if case['kind'] == 'reuse':
+        return run_reuse(case)
+    if case['kind'] == 'cachein':
+        return run_cachein(case)
     if case['kind'] == 'seq':
         return run_seq(case)
     if case['kind'] == 'frame':
@@ -891,6 +1060,14 @@ def encode(case):
         if op in ('urlencode', 'urlencode_q'):
             return [PRIM_CODE[op]] + enc_list(arg, lambda kv: enc_str(kv[0]) + enc_str(kv[1]))
         return [PRIM_CODE[op]] + enc_str(arg)
+    if case['kind'] == 'modes':
+        return ([7, 0 if case['mode'] == 'append' else 1] + enc_list(case['d0'], lambda kv: enc_str(kv[0]) + enc_str(kv[1]))
+                + enc_str(S(modes_qs(case))))
+    if case['kind'] == 'reuse':
+        return [8] + enc_list(case['reqs'], lambda qb: enc_str(qb[0]) + enc_str(qb[1]))
+    if case['kind'] == 'cachein':
+        return ([9, 1 if case['ro'] else 0, 1 if case['fails'] else 0, case['base']]
+                + enc_list(case['ops'], lambda o: [0] if o[0] == 'get' else [1, o[1]] if o[0] == 'set' else [2]))
     if case['kind'] == 'frame':
         return ([5, case['cl'], 1 if case['chunked'] else 0, case['buf'], 0 if case['maxb'] is None else 1,
                  case['maxb'] or 0] + enc_str(case['data']) + enc_list(case['sched'], lambda k: [k]))
@@ -939,6 +1116,23 @@ def decode(out, case):
         if q.int() == 0:
             return [k, ['s', q.str()]]
         return [k, ['l', q.list(lambda z: z.str())]]
+    if case['kind'] == 'modes':
+        tag = r.int()
+        if tag != 0:
+            return dict(status='model_tag_%d' % tag)
+        if case['mode'] == 'append':
+            return dict(status='ok', pairs=r.list(lambda q: [q.str(), q.str()]))
+        return dict(status='ok', items=r.list(item))
+    if case['kind'] == 'reuse':
+        def one_q(q):
+            tag = q.int()
+            return q.list(item) if tag == 0 else 'model_tag_%d' % tag
+        return dict(status='ok', responses=r.list(lambda q: q.list(one_q)))
+    if case['kind'] == 'cachein':
+        def cout(q):
+            tag = q.int()
+            return [0, q.int()] if tag == 0 else [tag]
+        return dict(status='ok', out=r.list(cout))
     if case['kind'] == 'frame':
         tag = r.int()
         if tag == 0:
@@ -992,6 +1186,8 @@ def oracle(case, obs):
         return None
     if case['kind'] == 'frame':
         return oracle_frame(case, obs)
+    if case['kind'] in ('modes', 'reuse', 'cachein'):
+        return oracle_misc(case, obs)
     if obs.get('status') != 'ok':
         return 'parsing raised %s' % obs.get('exc', obs)
     if case['kind'] == 'seq':
@@ -1047,6 +1243,60 @@ def chunk_lines_fit(data, buf):
         i = j + 4 + n
 
 
+def oracle_misc(case, obs):
+    if obs.get('status') != 'ok':
+        return '%s: %s' % (case['kind'], obs)
+    if case['kind'] == 'modes':
+        if 'pairs' not in case or not all(k for k, _ in case['pairs']):
+            return None
+        ps = [(T(k), T(v)) for k, v in case['pairs']]
+        d0 = [(T(k), T(v)) for k, v in case['d0']]
+        if case['mode'] == 'append':
+            want = [[S(k), S(v)] for k, v in d0 + ps]
+            return None if obs['pairs'] == want else 'parse_qsl(append=) delivered %d pairs for %d' % (len(obs['pairs']), len(want))
+        first = {}
+        for k, v in d0:
+            first[k] = v
+        want = merge([[S(k), ['s', S(v)]] for k, v in first.items()], group(ps))
+        return None if obs['items'] == want else 'parse_qsl(setitem=) into %s gave %s, expected %s' % (d0, short(obs['items']), short(want))
+    if case['kind'] == 'reuse':
+        from ombott import Request
+        for i, (q, b) in enumerate(case['reqs']):
+            env = environ('POST', '/', body=bytes(b), QUERY_STRING=T(q), CONTENT_TYPE='application/x-www-form-urlencoded')
+            env['CONTENT_LENGTH'] = str(len(b))
+            rq = Request(env)
+            want = [dump_dict(rq.query), dump_dict(rq.forms), dump_dict(rq.params)]
+            if obs['responses'][i] != want:
+                return 'request #%d on a reused application decoded %s, a request of its own decodes %s' % (
+                    i + 1, [short(x) for x in obs['responses'][i]], [short(x) for x in want])
+        return None
+    # cache_in: replay the documented behaviour independently
+    cached, calls, want = None, 0, []
+    for o in case['ops']:
+        if o[0] == 'get':
+            if cached is None:
+                calls += 1
+                if case['fails']:
+                    want.append([4])
+                    continue
+                cached = [case['base'] + calls - 1]
+            want.append([0, cached[0]])
+        elif case['ro']:
+            want.append([2])
+        elif o[0] == 'set':
+            cached = [o[1]]
+            want.append([1])
+        elif cached is None:
+            want.append([3])
+        else:
+            cached = None
+            want.append([1])
+    if obs['out'] != want or obs['calls'] != calls:
+        return 'cache_in(%s, read_only=%s): %s with %d getter calls, expected %s with %d' % (
+            case['form'], case['ro'], obs['out'], obs['calls'], want, calls)
+    return None
+
+
 def oracle_frame(case, obs):
     st = obs.get('status')
     if st not in ('ok', 'http_413', 'http_400'):
@@ -1055,6 +1305,8 @@ def oracle_frame(case, obs):
     n, buf, maxb = len(text), case['buf'], case['maxb']
     legal = chunk_lines_fit(case['data'], buf) if case['chunked'] else case['cl'] == n
     if not legal:
+        if not case['chunked'] and case['cl'] < 0 and st == 'ok' and obs['items'] != []:
+            return 'no Content-Length and not chunked: no body may be read, forms = %s' % short(obs['items'])
         return None                       # truncated / mis-declared framing: C05 / C04 territory
     if n > buf or (maxb is not None and n > maxb):
         if st != 'http_413':
@@ -1158,6 +1410,12 @@ def nontrivial(case, obs):
         return 37 in q or sum(1 for c in q if c in (38, 61)) >= 2
     if case['kind'] == 'frame':
         return len(case['text']) >= 2 and (bool(case['sched']) or case['chunked'])
+    if case['kind'] == 'modes':
+        return bool(case['d0']) and len(modes_qs(case)) > 2
+    if case['kind'] == 'reuse':
+        return len(case['reqs']) >= 2
+    if case['kind'] == 'cachein':
+        return len(case['ops']) >= 3
     if case['kind'] == 'seq' and 'ops' in case:
         kinds = ['read' if o[0] in ('read', 'copy', 'attr') else o[0] for o in case['ops']]
         first_set = min([i for i, k in enumerate(kinds) if k != 'read'], default=None)
@@ -1185,8 +1443,14 @@ def classify(case, obs):
         keys = [tuple(k) for k, _ in case['pairs']]
         return 'rt/%s/%s/%s' % (case['via'], case['spelling'],
                                 'repeated' if len(set(keys)) < len(keys) else 'distinct' if keys else 'empty')
+    if case['kind'] in ('modes', 'reuse', 'cachein'):
+        return '%s/%s/%s' % (case['kind'], case.get('mode') or case.get('form') or len(case['reqs']), obs.get('status'))
     if case['kind'] == 'frame':
         n = len(case['text'])
+        hdr = ('no-cl' if case['cl'] < 0 and not case['chunked'] else 'chunked+cl' if case['chunked'] and case['cl'] >= 0
+               else 'chunked' if case['chunked'] else 'cl')
+        return 'frame/%s%s/%s/%s/%s' % (hdr, '/ctype' if 'ctype' in case else '', 'pairs' if case.get('pairs') is not None else 'raw',
+                                        'n<=buf' if n <= case['buf'] else 'n>buf', obs.get('status'))
         return 'frame/%s/%s/%s/%s' % ('chunked' if case['chunked'] else 'cl', 'pairs' if case.get('pairs') is not None else 'raw',
                                       'n<=buf' if n <= case['buf'] else 'n>buf', obs.get('status'))
     if case['kind'] == 'seq':
@@ -1251,6 +1515,11 @@ def shrink(case):
         if b:
             for i in range(len(b)):
                 yield dict(case, body=b[:i] + b[i + 1:])
+    elif case['kind'] in ('modes', 'reuse', 'cachein'):
+        for f in ('d0', 'pairs', 'qs', 'reqs', 'ops'):
+            x = case.get(f)
+            for i in range(len(x or [])):
+                yield dict(case, **{f: x[:i] + x[i + 1:]})
     else:
         a = case['arg']
         for i in range(len(a)):
